@@ -279,6 +279,10 @@ type vCycle struct {
 func vRunCycle(S, K int, full bool, env int) *vCycle {
 	cy := &vCycle{S: S, K: K}
 	cy.opt = vOption()
+	if env&32 != 0 {
+		// bit 5: relief switched off (keeps two-shard whole cycles cheap enough for the quick tier)
+		zzv.Assume(cy.opt.DisableAlleviate)
+	}
 	vMargin = cy.opt
 	vBase = time.Now()
 	cy.active = vActive(K)
